@@ -295,6 +295,11 @@ def verify_recv_chunked(self, eng, inst):
             eng.oblige(f"{Q}.chunked.post.false_means_nothing_changed", s,
                        z3.And(is_slice(f["_buffer"], dec, d0, DOFF(cs)), is_slice(f["_partial"], arr, cs, r0), r1 == r0))
             continue
+        # True is reported only for a receive that took at least one byte off the peer's stream: read()'s loop goes round again
+        # on True, so this is what makes it terminate on a finite stream (C04), and what keeps a closed peer from being polled for ever
+        eng.oblige(f"{Q}.chunked.post.true_means_segment_received", s,
+                   z3.And(z3.BoolVal(res is True), r1 > r0, z3.BoolVal(s.obj(sock).fields["last"] == "data")),
+                   observe={"received": r1 - r0}, note=str(s.obj(sock).fields["last"]))
         part = as_sbytes(norm(f["_partial"]))
         npart = bytes_len(part)
         c2 = z3.simplify(r1 - npart)
